@@ -22,6 +22,8 @@ import re
 import signal
 import types
 
+from pathlib import Path
+
 import lark
 from lark import Token, Tree
 from lark.reconstruct import Reconstructor
@@ -99,6 +101,39 @@ if TAB:
             if _k in ("nt", "star", "opt"):
                 PARENTS.setdefault(_a, []).append((_f, _i))
 
+# Sentences of the profile language as the pinned grammar defines it (every form of the table in a minimal context, plain and
+# with awkward literals), written once by tools/harness/c10.py --write-reference and committed.  They run first in every run
+# and are ALL that can run when the grammar of the tree under test cannot be loaded or folded (the model driver and the sentence
+# generator both need the table): "every statement form the grammar supports is accepted and printed under its own keyword".
+REFERENCE_FILE = Path(__file__).resolve().parent.parent.parent / "corpus" / "C10" / "reference_rt.txt"
+
+
+def reference_sources():
+    try:
+        return [unhx(x) for x in REFERENCE_FILE.read_text().split()]
+    except OSError:
+        return []
+
+
+def _reference_names():
+    try:
+        import json as _json
+        return {n: i for i, n in enumerate(_json.loads((REFERENCE_FILE.parent / "reference_names.json").read_text()))}
+    except (OSError, ValueError):
+        return {}
+
+
+def _reference_kws():
+    try:
+        import json as _json
+        return {n: i for i, n in enumerate(_json.loads((REFERENCE_FILE.parent / "reference_keywords.json").read_text()))}
+    except (OSError, ValueError):
+        return {}
+
+
+REFERENCE_NAMEID = _reference_names() if TAB is None else {}
+REFERENCE_KWID = _reference_kws() if TAB is None else {}
+
 FALLBACK_SOURCES = ['set sleeptime "1";', 'stage { set userwx "false"; }', 'http-get { set uri "/a"; client { metadata { base64; header "Cookie"; } } }']
 
 
@@ -117,6 +152,8 @@ def gen_literal(rng, nasty=0.35) -> str:
         # words that mean something to some consumer of the tree (as_dict treats the variant "default" specially, …)
         return rng.choice(['"default"', '"default"', '"Default"', '"default "', '"true"', '"false"', '"None"', '""'])
     n = rng.choice([0, 1, 1, 2, 3, 5, 8, 13])
+    if rng.random() < 0.03:
+        n = rng.choice([120, 240, 260, 400, 1100])       # statements wider than any line-length limit a formatter might apply
     body = []
     for _ in range(n):
         if rng.random() < nasty:
@@ -248,10 +285,19 @@ def unhx(t: str) -> str:
     return bytes.fromhex(t[1:]).decode("utf-8")
 
 
+def _nid(name) -> str:
+    # without a table (translator plug-in failed) the ids of the pinned grammar's table are used (committed with the reference
+    # sentences: the model driver then still runs on the last table that could be generated); unknown names are written out
+    if TAB:
+        return str(NAMEID[name])
+    i = REFERENCE_NAMEID.get(str(name))
+    return str(i) if i is not None else "<" + str(name) + ">"
+
+
 def enc_tree(t) -> list:
     if isinstance(t, Token):
-        return [f"t{NAMEID[t.type]}:{hx(str(t))}"]
-    out = [f"n{NAMEID[str(t.data)]}:{len(t.children)}"]
+        return [f"t{_nid(t.type)}:{hx(str(t))}"]
+    out = [f"n{_nid(str(t.data))}:{len(t.children)}"]
     for c in t.children:
         out += enc_tree(c)
     return out
@@ -278,9 +324,10 @@ def enc_items(items) -> str:
     out = []
     for it in items:
         if isinstance(it, Token):
-            out.append(f"t{NAMEID[it.type]}:{hx(str(it))}")
+            out.append(f"t{_nid(it.type)}:{hx(str(it))}")
         else:
-            out.append(f"k{KWID[str(it)]}")
+            i = KWID.get(str(it)) if TAB else REFERENCE_KWID.get(str(it))
+            out.append(f"k{i}" if i is not None else "k<" + str(it) + ">")
     return " ".join(out)
 
 
@@ -296,6 +343,9 @@ def gen(tier, rng, shard, nshards):
             for src in FALLBACK_SOURCES:
                 yield "rt", "rt " + hx(src)
         return
+    for i, src in enumerate(reference_sources()):
+        if i % nshards == shard:
+            yield "rt", "rt " + hx(src)
     if TAB is None:
         return
 
@@ -730,10 +780,35 @@ def _hist_answer(prof, src_toks) -> str:
             f"relex={C.tf(relex)} reparse={C.tf(reparse)}")
 
 
+def _failed_as_text(k: int):
+    """as_text() on an UNRELATED, deliberately damaged profile object (a plain str / an unknown subtree where a STRING token belongs):
+    it raises part-way through a statement.  A stateless implementation is unaffected by it; whatever it leaves behind in
+    module- or class-level state shows up in the steps that follow.  Invisible to the model (which is stateless)."""
+    try:
+        p = C2Profile.from_text('set sleeptime "1"; http-get { set uri "/a"; client { header "A" "b"; metadata { base64; print; } } } set jitter "2";')
+        slots = []
+
+        def walk(t):
+            for i, c in enumerate(t.children):
+                if isinstance(c, Token) and c.type == "STRING":
+                    slots.append((t, i))
+                elif isinstance(c, Tree):
+                    walk(c)
+        walk(p.tree)
+        t, i = slots[k % len(slots)]
+        t.children[i] = "plain-str" if k % 2 == 0 else Tree("no_such_statement", [])
+        p.as_text()
+    except Exception:  # noqa: BLE001
+        pass
+
+
 def impl_hist(words) -> str:
     cur = None
     out = []
-    for w in words:
+    salt = sum(len(w) for w in words)
+    for wi, w in enumerate(words):
+        if (salt + wi) % 3 == 0:
+            _failed_as_text(salt + wi)
         src_toks = None
         try:
             if w.startswith("p:"):
@@ -991,3 +1066,39 @@ def extra_checks(tier, rng, lean):
             if oracle("rt", line, out) is False:
                 yield {"stream": "rt", "line": line, "impl": out, "model": None, "oracle_failed": True,
                        "note": f"forms {f.id} and {g.id} share the tree label {NAMES[TAB.label(f)]} but not their keywords"}
+
+
+def write_reference():
+    """python -m harness.c10 --write-reference : regenerate corpus/C10/reference_rt.txt from the CURRENT table (run on the unchanged tree only)"""
+    import random as _r
+    rng = _r.Random(20260930)
+    out = []
+    for f in TAB.forms:
+        if f.id in UNLEXABLE:
+            continue
+        for rep in range(2):
+            g = SGen(rng, nasty=0.0 if rep == 0 else 0.4, star_max=1 if rep == 0 else 2)
+            toks = g.cover(f, depth=0)
+            src = render(rng, toks, messy=rep > 0)
+            line = "rt " + hx(src)
+            ans = impl("rt", line)
+            if oracle("rt", line, ans) is True:
+                out.append(hx(src))
+    for opt in TAB.option_alts:      # every word of the OPTION terminal
+        for lit in ('"x"', '"a b\\n"'):
+            src = f"set {opt} {lit};"
+            line = "rt " + hx(src)
+            if oracle("rt", line, impl("rt", line)) is True:
+                out.append(hx(src))
+    REFERENCE_FILE.parent.mkdir(parents=True, exist_ok=True)
+    REFERENCE_FILE.write_text("\n".join(out) + "\n")
+    import json as _json
+    (REFERENCE_FILE.parent / "reference_names.json").write_text(_json.dumps(list(NAMES)))
+    (REFERENCE_FILE.parent / "reference_keywords.json").write_text(_json.dumps(list(KW)))
+    print(len(out), "reference sentences written")
+
+
+if __name__ == "__main__":
+    import sys as _sys
+    if "--write-reference" in _sys.argv:
+        write_reference()
